@@ -11,6 +11,7 @@ SPEC = {
         "working directory / uid / gid / process-group changes are made in the child, before the exec closure runs, "
         "each under its own option and with that option's payload, and the group id is set while the process is "
         "still privileged (no path from setuid to setgid)."
+        " Also: PopenConfig::default() requests no executable/env/cwd/uid/gid/pgid; the chdir/setuid/setgid/setpgid wrappers call libc with their argument on every path. Thorough tier, windows: format_env_block appends name, '=', value, NUL per kept pair and one final NUL, with the same reverse/filter/reverse last-wins idiom over ASCII-uppercased names."
     ),
     "not_decided": "format_env's last-wins de-duplication and KEY=VALUE joining as an algorithm over run-time data; byte-exact "
                    "survival of arbitrary OsStr through the kernel; an `executable` containing NUL (the statement's NUL clause names "
